@@ -167,6 +167,13 @@ Definition guard_b (s : state) (o : op) : bool :=
   | ODisconnect p c _ => memb p g && memb c g
   end.
 
+(* every operation of the sequence is applied inside its domain *)
+Fixpoint guards_ok (s : state) (os : list op) : bool :=
+  match os with
+  | [] => true
+  | o :: t => guard_b s o && match run_op s o with Ok s' => guards_ok s' t | Raise _ => false end
+  end.
+
 (* the operation does not explicitly add an edge that closes a cycle, and inserted material
    is itself acyclic (and, for update_node, does not hang on members) *)
 Definition acyc_guard_b (s : state) (o : op) : bool :=
